@@ -1,6 +1,7 @@
 /-
   FcProofs.Witness.C07 — non-vacuity examples for the hypotheses of the C07 theorems and `decide`d negation
-  witnesses for the `_partial` ones (finding F9: repeated meshio blocks; finding F14: image extent offset).
+  witnesses for the `_partial` one (finding F9: repeated meshio blocks); the former image extent-offset witness
+  (finding F20, fixed) is a positive example now.
 -/
 import FcProofs.Props.C07
 namespace Fc.C07
@@ -73,15 +74,23 @@ theorem meshio_blocks_full_statement_false :
 example : ((fromMeshio wMioRepeated).map fun F => F.cellContent.map (·.values)) = some [[("c", [1])]] ∧
     (mioCellContent wMioRepeated).map (·.values) = [[("c", [1])], [("c", [2])]] := by decide
 
-/-! ### image data whose extent does not start at 0 (F14) -/
+/-! ### image data whose extent does not start at 0 (was finding F20, fixed by a3961d2) -/
 
-/-- **negation witness (F14)**: `Extent="1 2 0 0 0 0"`, Origin 0, Spacing 1: VTK places the first point at x = 1,
-    the code at x = 0 — so `C07_extent_offset_partial` cannot be stated without `imageOffset lo g = false` -/
-theorem extent_offset_full_statement_false :
-    imageOffset [1, 0, 0] (.image 0 [0, 0, 0] [[1, 0, 0], [0, 1, 0], [0, 0, 1]] [1, 1, 1]) = true ∧
-    geomAtLo [1, 0, 0] [1, 0, 0] (.image 0 [0, 0, 0] [[1, 0, 0], [0, 1, 0], [0, 0, 1]] [1, 1, 1]) [0, 0, 0] = [1, 0, 0] ∧
-    geomAt [1, 0, 0] (.image 0 [0, 0, 0] [[1, 0, 0], [0, 1, 0], [0, 0, 1]] [1, 1, 1]) [0, 0, 0] = [0, 0, 0] := by
+def wOffsetImage : GridGeom := .image 0 [0, 0, 0] [[1, 0, 0], [0, 1, 0], [0, 0, 1]] [1, 1, 1]
+
+/-- `Extent="1 2 0 0 0 0"`, Origin 0, Spacing 1: VTK places the first point at x = 1, and so does the description
+    the (fixed) reader builds; the hypotheses of `C07_extent_offset` / `C07_read_content` hold for it.
+    (Before the fix the reader used the description as it stood: first point at x = 0.) -/
+example :
+    shiftExact [1, 0, 0] wOffsetImage = true ∧ gridHyp [1, 0, 0] wOffsetImage [] [] = true ∧
+    geomAtLo [1, 0, 0] [1, 0, 0] wOffsetImage [0, 0, 0] = [1, 0, 0] ∧
+    geomAt [1, 0, 0] (shiftGeom [1, 0, 0] wOffsetImage) [0, 0, 0] = [1, 0, 0] ∧
+    geomAt [1, 0, 0] wOffsetImage [0, 0, 0] = [0, 0, 0] ∧
+    ((readGrid [1, 2, 0, 0, 0, 0] wOffsetImage [] []).map (·.mesh.points)) = some [[1, 0, 0], [2, 0, 0]] := by
   decide
+
+/-- a rotated, scaled image with a negative lower end: the shift is exact in units of 2^-2 -/
+example : shiftExact [-3, 2, 0] (.image 2 [4, 0, 8] [[0, -4, 0], [2, 0, 0], [0, 0, 4]] [2, 6, 4]) = true := by decide
 
 /-! ### outside the quantifier: a grid without any non-zero extent (a single point) -/
 
